@@ -4,6 +4,11 @@ import (
 	"math/big"
 	"time"
 
+	sdkmath "cosmossdk.io/math"
+	sdk "github.com/cosmos/cosmos-sdk/types"
+
+	"fxverif/lib"
+
 	fxgovtypes "github.com/functionx/fx-core/v8/x/gov/types"
 )
 
@@ -45,6 +50,22 @@ func scripted(seed int64) []*hist {
 		h.opSubmitKind("text", 11, min, false)
 		for k := 0; k < 3 && len(h.openIDs(0)) > 0 && !h.halted; k++ {
 			h.opEndBlock(time.Duration(h.params.VotingPeriod.Seconds())*time.Second - 30*time.Minute)
+		}
+		out = append(out, h)
+	}
+	// -3: corners of the deposit-share rule that only matter once the per-type lookup works
+	// (inert on the tree as it is): a dust amount of a second denomination next to the request,
+	// a request in another denomination only, an expedited proposal of a configured type
+	{
+		h := newHist(seed, -3, "custom")
+		min := h.minFor(false)
+		half := new(big.Int).Quo(min, big.NewInt(2))
+		h.opSubmitSpend(10, sdk.NewCoins(lib.FX(50_000), sdk.NewCoin("aaa", sdkmath.NewInt(1))), half)
+		h.opSubmitSpend(11, sdk.NewCoins(sdk.NewCoin("usdt", sdkmath.NewInt(4))), new(big.Int).Quo(min, big.NewInt(10)))
+		h.opSubmitSpend(12, sdk.NewCoins(sdk.NewCoin("usdt", sdkmath.NewInt(4_000_000))), min)
+		h.opSubmitKind("toggle", 13, h.minFor(true), true)
+		for k := 0; k < 4 && len(h.openIDs(0)) > 0 && !h.halted; k++ {
+			h.opEndBlock(8 * 24 * time.Hour)
 		}
 		out = append(out, h)
 	}
